@@ -156,21 +156,24 @@ def fix_pca(spec, n_in, n_rows):
     return spec
 
 
-def walk(obj, depth=1):
-    """independent pre-order walk: yields (depth, object-or-'passthrough', columns-or-None)"""
+def walk(obj, depth=1, remainder=False):
+    """independent pre-order walk: yields (depth, object-or-'passthrough', columns-or-None); remainder=True also visits the
+    remainder of a ColumnTransformer (after its transformers) when it is not 'drop'"""
     yield depth, obj, None
     if isinstance(obj, Pipeline):
         for _, m in obj.steps:
-            yield from walk(m, depth + 1)
+            yield from walk(m, depth + 1, remainder)
     elif isinstance(obj, ColumnTransformer):
         for _, m, cols in obj.transformers:
             first = True
-            for d, o, c in walk(m, depth + 1):
+            for d, o, c in walk(m, depth + 1, remainder):
                 yield d, o, (cols if first else c)
                 first = False
+        if remainder and not (isinstance(obj.remainder, str) and obj.remainder == "drop"):
+            yield from walk(obj.remainder, depth + 1, remainder)
     elif isinstance(obj, FeatureUnion):
         for _, m in obj.transformer_list:
-            yield from walk(m, depth + 1)
+            yield from walk(m, depth + 1, remainder)
 
 
 def make_data(case):
